@@ -11,7 +11,8 @@ SPEC = {
               quick_n=700, thorough_n=12000, rewrite=rewrite_upload_imports, tags="verif",
               extra_args=["c07"],
               rule="each case is one scenario: a telemetry directory with count files written by the real counter "
-                   "library (1-3 program builds x 1-3 weeks; active and expired; without counters; truncated, "
+                   "library (1-3 program builds - one of the five programs is named local.agent, so that its count files carry "
+                   "the prefix of local reports - x 1-3 weeks; active and expired; without counters; truncated, "
                    "damaged, random and empty files; in 22 % of the scenarios an expired file with a VALID header and metadata "
                    "whose hash chains leave the file (260 long-named counters so that it grows beyond its first page, then "
                    "truncated to 16 KiB; or the last record of a chain linked past the end) - unparseable by an independent "
